@@ -128,7 +128,7 @@ class Emitter:
         s.stubs = set(spec.get('stubs', []))
         s.atomic = set(spec.get('atomic', []))
         s.blocking = set(spec.get('blocking', ['pthread_mutex_lock', 'pthread_join', 'futex', 'pthread_cond_wait',
-                                               'rt_wait']))
+                                               'rt_wait_eq']))
         s.invisible_prims = set(spec.get('invisible_prims', [])) | {'__errno_location', '__irseq_bad_indirect'}
         s.hint_prims = set(spec.get('hint_prims', ['poll', 'sched_yield', 'usleep']))
         s.warnings = []
@@ -229,6 +229,10 @@ class Emitter:
                 return '((%s *)FA_%s)' % (T.ct(fty), san(n))
             raise Unsupported('unknown global %s' % n)
         if isinstance(v, CExpr):
+            if v.op == 'inttoptr' and isinstance(v.args[0], CInt) and 0 < v.args[0].v < 4096 and not const:
+                # small sentinel constants ((void *)1 ...): NULL-object-relative, bit-identical to the integer cast, but keeps
+                # CBMC's "integer address" pseudo-object out of the points-to sets (see check.py points-to guard)
+                return '((%s)((char *)0 + %d))' % (T.ct(v.ty), v.args[0].v)
             if v.op == 'bitcast' or v.op == 'inttoptr' or v.op == 'ptrtoint' or v.op == 'addrspacecast':
                 return '((%s)%s)' % (T.ct(v.ty), s.val(v.args[0], ctx, const))
             if v.op == 'getelementptr':
@@ -245,28 +249,61 @@ class Emitter:
         raise Unsupported('value %r' % (v,))
 
     def gep(s, srcty, args, ctx, const=False):
+        """getelementptr as pointer arithmetic.  Struct fields are reached by byte offset ((F *)((char *)p + off)) instead of
+        &p->f: CBMC turns address-of-member-of-dereference into points-to entries for sub-objects whose dereference guard
+        compares only the root object, which resolved loads to the wrong array element (measured; DESIGN 2.2)."""
         T = s.T
         base = s.val(args[0], ctx, const)
         T.need_complete(srcty)
-        e = base
+        if const:
+            # static initialisers must stay address constants: use the member form
+            e = base
+            t = srcty
+            i0 = args[1]
+            if not (isinstance(i0, CInt) and i0.v == 0):
+                e = '(%s + %s)' % (e, s.sidx(i0, ctx, const))
+            for idx in args[2:]:
+                rt = s.mod.resolve(t)
+                if isinstance(rt, StructT):
+                    e = '(&(%s)->f%d)' % (e, idx.v)
+                    t = rt.fields[idx.v]
+                else:
+                    et = rt.elem
+                    T.need_complete(et)
+                    e = '((%s *)%s + %s)' % (T.ct(et), e, s.sidx(idx, ctx, const))
+                    t = et
+            return e
         t = srcty
+        coff = 0            # constant byte offset
+        dyn = []            # dynamic byte offset terms
         i0 = args[1]
-        if not (isinstance(i0, CInt) and i0.v == 0):
-            e = '(%s + %s)' % (e, s.sidx(i0, ctx, const))
+        esz = s.mod.sizeof(srcty)
+        if isinstance(i0, CInt):
+            coff += i0.v * esz
+        else:
+            dyn.append('%s * (int64_t)%d' % (s.sidx(i0, ctx, const), esz))
         for idx in args[2:]:
             rt = s.mod.resolve(t)
             if isinstance(rt, StructT):
-                e = '(&(%s)->f%d)' % (e, idx.v)
+                coff += s.mod.field_offsets(t)[idx.v]
                 t = rt.fields[idx.v]
             else:
                 et = rt.elem
                 T.need_complete(et)
-                if isinstance(idx, CInt) and idx.v == 0:
-                    e = '((%s *)%s)' % (T.ct(et), e)
+                sz = s.mod.sizeof(et)
+                if isinstance(idx, CInt):
+                    coff += idx.v * sz
                 else:
-                    e = '((%s *)%s + %s)' % (T.ct(et), e, s.sidx(idx, ctx, const))
+                    dyn.append('%s * (int64_t)%d' % (s.sidx(idx, ctx, const), sz))
                 t = et
-        return e
+        rt = s.mod.resolve(t)
+        if isinstance(rt, (StructT, ArrayT)):
+            T.need_complete(t)
+        rct = T.ct(PtrT(t))
+        if coff == 0 and not dyn:
+            return '((%s)%s)' % (rct, base)
+        terms = ([('(int64_t)%d' % coff)] if coff else []) + dyn
+        return '((%s)((char *)%s + (%s)))' % (rct, base, ' + '.join(terms))
 
     def sidx(s, v, ctx, const=False):
         if isinstance(v, CInt):
@@ -363,10 +400,45 @@ class Inst:
         s.extra.append('%s%s %s;' % ('static ' if s.resumable else '', ct, nm))
         return nm
 
-    def reg(s, name):
+    def raw(s, name):
         if s.resumable:
             return '%s_r_%s' % (s.prefix, san(name))
         return 'r_%s' % san(name)
+
+    def isp(s, name):
+        return name in s.info.ptrlike
+
+    def reg(s, name):
+        """rvalue of IR register (in its IR type)"""
+        if s.isp(name):
+            return '((uint64_t)%s)' % s.raw(name)
+        return s.raw(name)
+
+    def pv(s, x):
+        """pointer-typed C expression (void *) for an i64 IR value that carries a pointer, built without
+        routing the pointer through integer arithmetic or an integer variable (CBMC's points-to tracking
+        does not survive an integer '+'; see DESIGN 2.2)"""
+        if isinstance(x, Reg):
+            if s.isp(x.name):
+                return s.raw(x.name)
+            return '((void *)%s)' % s.raw(x.name)
+        if isinstance(x, CExpr) and x.op == 'ptrtoint':
+            return '((void *)%s)' % s.v(x.args[0])
+        if isinstance(x, CNull) or (isinstance(x, CInt) and x.v == 0):
+            return '((void *)0)'
+        return '((void *)%s)' % s.v(x)
+
+    def assign_p(s, name, pexpr):
+        """assign a pointer-typed C expression to a pointer-like (i64) register"""
+        if s.isp(name):
+            return '%s = (void *)(%s);' % (s.raw(name), pexpr)
+        return '%s = (uint64_t)(%s);' % (s.raw(name), pexpr)
+
+    def assign(s, name, expr):
+        """statement assigning C expression expr (of the register's IR type) to the register"""
+        if s.isp(name):
+            return '%s = (void *)(%s);' % (s.raw(name), expr)
+        return '%s = %s;' % (s.raw(name), expr)
 
     def lab(s, l):
         return 'L_%s' % san(l)
@@ -389,16 +461,17 @@ class Inst:
                     c = d.x['count']
                     if not isinstance(c, CInt):
                         raise Unsupported('dynamic alloca')
-                    decls.append('%s%s %s_mem[%d];' % (sto, T.ct(at), s.reg(n), c.v))
-                    s.allocas[n] = '%s_mem' % s.reg(n)
+                    decls.append('%s%s %s_mem[%d];' % (sto, T.ct(at), s.raw(n), c.v))
+                    s.allocas[n] = '%s_mem' % s.raw(n)
                 else:
-                    decls.append('%s%s %s_mem;' % (sto, T.ct(at), s.reg(n)))
-                    s.allocas[n] = '(&%s_mem)' % s.reg(n)
+                    decls.append('%s%s %s_mem;' % (sto, T.ct(at), s.raw(n)))
+                    s.allocas[n] = '(&%s_mem)' % s.raw(n)
+                decls.append('%s%s %s;' % (sto, T.ct(PtrT(at)), s.raw(n)))
                 continue
             rt = s.mod.resolve(t)
             if isinstance(rt, (StructT, ArrayT)):
                 T.need_complete(t)
-            decls.append('%s%s %s;' % (sto, T.ct(t), s.reg(n)))
+            decls.append('%s%s %s;' % (sto, 'void *' if s.isp(n) else T.ct(t), s.raw(n)))
         # blocks
         for b in f.blocks:
             body.append('%s: ;' % s.lab(b.label))
@@ -423,7 +496,7 @@ class Inst:
             out.append('}')
         else:
             rty = T.ct(f.fty.ret)
-            ps = ', '.join('%s %s' % (T.ct(p.ty), s.reg(p.name)) for p in f.params) or 'void'
+            ps = ', '.join('%s %s' % (T.ct(p.ty), s.raw(p.name)) for p in f.params) or 'void'
             out.append('/* instance %s: %s on slot %d (plain) */' % (s.prefix, f.name, s.slot))
             out.append('static %s %s(%s) {' % (rty, name, ps))
             pn = {p.name for p in f.params}
@@ -444,9 +517,20 @@ class Inst:
         s.nvis += 1
         k = s.nvis
         s.vis_desc.append(desc)
-        s.body.append('V%d: if (rt_budget == 0) { %s_pc = %d; return; } rt_budget--; RT_STEP(%d); /* %s */' %
+        s.body.append('V%d: if (RT_YIELD()) { %s_pc = %d; return; } RT_STEP(%d); /* %s */' %
                       (k, s.prefix, k, s.slot, desc.replace('*/', '* /')[:90]))
         return k
+
+    def spin_yield(s):
+        """spin hint in resumable mode: the thread gives up the processor here and resumes right after the hint
+        (no budget check on resume), so one turn executes at most one iteration of a busy-wait loop"""
+        s.nvis += 1
+        k = s.nvis
+        s.vis_desc.append('spin hint')
+        # in a solo turn the first hint is ignored (nobody else runs: if the awaited event already happened the
+        # loop exits at its re-check, otherwise the second hint ends the turn)
+        s.body.append('if (rt_solo && !rt_spun[%d]) { rt_spun[%d] = 1; } else { %s_pc = %d; rt_spun[%d] = 1; return; } V%d: ; /* resume after spin hint */'
+                      % (s.slot, s.slot, s.prefix, k, s.slot, k))
 
     def edge(s, frm, to):
         """phi copies for edge frm->to followed by goto"""
@@ -465,15 +549,24 @@ class Inst:
         T = s.em.T
         if len(copies) == 1:
             ins, val = copies[0]
-            return '{ %s = %s; goto %s; }' % (s.reg(ins.res), s.cast_to(ins.ty, val), s.lab(to))
+            return '{ %s goto %s; }' % (s.phi_copy(ins, val), s.lab(to))
         pre = []; post = []
         for i, (ins, val) in enumerate(copies):
-            pre.append('%s t%d = %s;' % (T.ct(ins.ty), i, s.cast_to(ins.ty, val)))
-            post.append('%s = t%d;' % (s.reg(ins.res), i))
+            if s.isp(ins.res):
+                pre.append('void *t%d = (void *)(%s);' % (i, s.pv(val)))
+                post.append('%s = t%d;' % (s.raw(ins.res), i))
+            else:
+                pre.append('%s t%d = %s;' % (T.ct(ins.ty), i, s.cast_to(ins.ty, val)))
+                post.append('%s = t%d;' % (s.raw(ins.res), i))
         return '{ %s %s goto %s; }' % (' '.join(pre), ' '.join(post), s.lab(to))
 
     def cast_to(s, ty, val):
         return s.v(val)
+
+    def phi_copy(s, ins, val):
+        if s.isp(ins.res):
+            return s.assign_p(ins.res, s.pv(val))
+        return s.assign(ins.res, s.v(val))
 
     def is_visible_ptr(s, p):
         return not s.info.is_local_ptr(p)
@@ -492,7 +585,7 @@ class Inst:
         em = s.em; T = em.T; body = s.body
         op = ins.op
         if op == 'alloca':
-            body.append('%s = %s;' % (s.reg(ins.res), s.allocas[ins.res]))
+            body.append(s.assign(ins.res, s.allocas[ins.res]))
             return
         if op == 'load':
             p = ins.args[0]
@@ -506,7 +599,10 @@ class Inst:
             if vis and s.resumable and em.tso:
                 body.append(s.tso_load(ins, p, lv, st))
             else:
-                body.append('%s = (%s)%s;' % (s.reg(ins.res), T.ct(ins.ty), lv))
+                if st is not None and s.isp(ins.res):
+                    body.append(s.assign_p(ins.res, lv))
+                else:
+                    body.append(s.assign(ins.res, '(%s)%s' % (T.ct(ins.ty), lv)))
             return
         if op == 'store':
             val, p = ins.args
@@ -514,53 +610,77 @@ class Inst:
             lv, st = s.lvalue(p, val.ty)
             if vis:
                 s.yield_point('store %s' % (ins.line or '')[:70])
-            ve = s.v(val)
             if st is not None:
-                ve = '(%s)%s' % (T.ct(st), ve)
+                ve = '(%s)%s' % (T.ct(st), s.pv(val))
+            else:
+                ve = s.v(val)
             if vis and s.resumable and em.tso:
                 body.append(s.tso_store(ins, p, val, ve, st))
             else:
                 body.append('%s = %s;' % (lv, ve))
             return
         if op == 'getelementptr':
-            body.append('%s = %s;' % (s.reg(ins.res), em.gep(ins.x['srcty'], ins.args, s)))
+            body.append(s.assign(ins.res, em.gep(ins.x['srcty'], ins.args, s)))
             return
         if op in ('bitcast', 'inttoptr', 'ptrtoint', 'trunc', 'zext', 'addrspacecast'):
             src = ins.args[0]
             if op == 'trunc' and ins.ty.bits == 1:
-                body.append('%s = (_Bool)(%s & 1);' % (s.reg(ins.res), s.v(src)))
+                body.append(s.assign(ins.res, '(_Bool)(%s & 1)' % s.v(src)))
             elif op == 'trunc' and ins.ty.bits not in (8, 16, 32, 64):
-                body.append('%s = (%s)(%s & %s);' % (s.reg(ins.res), T.ct(ins.ty), s.v(src),
-                                                      hex((1 << ins.ty.bits) - 1)))
+                body.append(s.assign(ins.res, '(%s)(%s & %s)' % (T.ct(ins.ty), s.v(src), hex((1 << ins.ty.bits) - 1))))
             else:
-                body.append('%s = (%s)%s;' % (s.reg(ins.res), T.ct(ins.ty), s.v(src)))
+                if op == 'inttoptr':
+                    body.append(s.assign(ins.res, '(%s)%s' % (T.ct(ins.ty), s.pv(src))))
+                elif op == 'ptrtoint' and s.isp(ins.res):
+                    body.append(s.assign_p(ins.res, s.v(src)))
+                else:
+                    body.append(s.assign(ins.res, '(%s)%s' % (T.ct(ins.ty), s.v(src))))
             return
         if op == 'sext':
             src = ins.args[0]
-            body.append('%s = (%s)%s;' % (s.reg(ins.res), T.ct(ins.ty),
-                                          em.signed(ins.ty, em.signed(src.ty, s.v(src)))))
+            body.append(s.assign(ins.res, '(%s)%s' % (T.ct(ins.ty), em.signed(ins.ty, em.signed(src.ty, s.v(src))))))
             return
         if op in BINOPS:
-            body.append('%s = %s;' % (s.reg(ins.res), em.binop(op, ins.ty, s.v(ins.args[0]), s.v(ins.args[1]))))
+            a, b2 = ins.args
+            if s.isp(ins.res) and op in ('add', 'sub'):
+                ap = isinstance(a, Reg) and s.isp(a.name) or (isinstance(a, CExpr) and a.op == 'ptrtoint')
+                bp = isinstance(b2, Reg) and s.isp(b2.name) or (isinstance(b2, CExpr) and b2.op == 'ptrtoint')
+                if ap and not bp:
+                    body.append(s.assign_p(ins.res, '(char *)%s %s (int64_t)%s' % (s.pv(a), '+' if op == 'add' else '-', s.v(b2))))
+                    return
+                if bp and not ap and op == 'add':
+                    body.append(s.assign_p(ins.res, '(char *)%s + (int64_t)%s' % (s.pv(b2), s.v(a))))
+                    return
+            body.append(s.assign(ins.res, em.binop(op, ins.ty, s.v(a), s.v(b2))))
             return
         if op == 'icmp':
-            body.append('%s = %s;' % (s.reg(ins.res), em.icmp(ins.x['pred'], ins.args[0].ty,
-                                                            s.v(ins.args[0]), s.v(ins.args[1]))))
+            body.append(s.assign(ins.res, em.icmp(ins.x['pred'], ins.args[0].ty, s.v(ins.args[0]), s.v(ins.args[1]))))
             return
         if op == 'select':
-            body.append('%s = %s ? %s : %s;' % (s.reg(ins.res), s.v(ins.args[0]), s.v(ins.args[1]), s.v(ins.args[2])))
+            if s.isp(ins.res):
+                body.append(s.assign_p(ins.res, '%s ? %s : %s' % (s.v(ins.args[0]), s.pv(ins.args[1]), s.pv(ins.args[2]))))
+            else:
+                body.append(s.assign(ins.res, '%s ? %s : %s' % (s.v(ins.args[0]), s.v(ins.args[1]), s.v(ins.args[2]))))
             return
         if op == 'freeze':
-            body.append('%s = %s;' % (s.reg(ins.res), s.v(ins.args[0])))
+            if s.isp(ins.res):
+                body.append(s.assign_p(ins.res, s.pv(ins.args[0])))
+            else:
+                body.append(s.assign(ins.res, s.v(ins.args[0])))
             return
         if op == 'extractvalue':
+            a0 = ins.args[0]
+            d0 = s.info.defs.get(a0.name) if isinstance(a0, Reg) else None
+            if d0 is not None and d0.op == 'cmpxchg' and ins.x['idx'] == [0] and s.isp(ins.res):
+                body.append(s.assign(ins.res, '(uint64_t)%s_p0' % s.raw(a0.name)))
+                return
             e = s.v(ins.args[0])
             for i in ins.x['idx']:
                 e += '.f%d' % i
-            body.append('%s = %s;' % (s.reg(ins.res), e))
+            body.append(s.assign(ins.res, e))
             return
         if op == 'insertvalue':
-            body.append('%s = %s; %s%s = %s;' % (s.reg(ins.res), s.v(ins.args[0]), s.reg(ins.res),
+            body.append('%s = %s; %s%s = %s;' % (s.raw(ins.res), s.v(ins.args[0]), s.raw(ins.res),
                                                  ''.join('.f%d' % i for i in ins.x['idx']), s.v(ins.args[1])))
             return
         if op == 'br':
@@ -615,17 +735,19 @@ class Inst:
     # -------------------------------------------------------------- TSO
     def tso_load(s, ins, p, lv, st):
         T = s.em.T
-        r = s.reg(ins.res)
         ct = T.ct(ins.ty)
         rt = s.mod.resolve(ins.ty)
         pe = s.v(p)
         if isinstance(rt, (StructT, ArrayT)):
-            return 'rt_sb_drain(%d); %s = %s;' % (s.slot, r, lv)
+            return 'rt_sb_drain(%d); %s = %s;' % (s.slot, s.raw(ins.res), lv)
         if st is not None or isinstance(rt, PtrT):
-            return '{ int h_ = rt_sb_find(%d, (void *)%s); if (h_ >= 0) %s = (%s)rt_sb[%d][h_].pval; else %s = (%s)%s; }' % (
-                s.slot, pe, r, ct, s.slot, r, ct, lv)
-        return '{ int h_ = rt_sb_find(%d, (void *)%s); if (h_ >= 0) %s = (%s)rt_sb[%d][h_].val; else %s = (%s)%s; }' % (
-            s.slot, pe, r, ct, s.slot, r, ct, lv)
+            if s.isp(ins.res):
+                return '{ int h_ = rt_sb_find(%d, (void *)%s); if (h_ >= 0) %s else %s }' % (
+                    s.slot, pe, s.assign_p(ins.res, 'rt_sb[%d][h_].pval' % s.slot), s.assign_p(ins.res, lv))
+            return '{ int h_ = rt_sb_find(%d, (void *)%s); if (h_ >= 0) %s else %s }' % (
+                s.slot, pe, s.assign(ins.res, '(%s)rt_sb[%d][h_].pval' % (ct, s.slot)), s.assign(ins.res, '(%s)%s' % (ct, lv)))
+        return '{ int h_ = rt_sb_find(%d, (void *)%s); if (h_ >= 0) %s else %s }' % (
+            s.slot, pe, s.assign(ins.res, '(%s)rt_sb[%d][h_].val' % (ct, s.slot)), s.assign(ins.res, '(%s)%s' % (ct, lv)))
 
     def tso_store(s, ins, p, val, ve, st):
         T = s.em.T
@@ -636,7 +758,7 @@ class Inst:
             lv, _ = s.lvalue(p, val.ty)
             return 'rt_sb_drain(%d); %s = %s;' % (s.slot, lv, ve)
         if st is not None or isinstance(rt, PtrT):
-            txt = 'rt_sb_put(%d, (void *)%s, 0, (void *)%s, 0);' % (s.slot, pe, ve)
+            txt = 'rt_sb_put(%d, (void *)%s, 0, (void *)%s, 0);' % (s.slot, pe, s.pv(val) if st is not None else ve)
         else:
             sz = s.mod.sizeof(val.ty)
             txt = 'rt_sb_put(%d, (void *)%s, (uint64_t)%s, (void *)0, %d);' % (s.slot, pe, ve, sz)
@@ -660,9 +782,11 @@ class Inst:
         if n.startswith('llvm.'):
             s.emit_intrinsic(n, ins)
             return
-        res = (s.reg(ins.res) + ' = ') if ins.res is not None and not isinstance(ins.ty, VoidT) else ''
+        res = ''
+        if ins.res is not None and not isinstance(ins.ty, VoidT):
+            res = (s.raw(ins.res) + ' = (void *)') if s.isp(ins.res) else (s.raw(ins.res) + ' = ')
         if n in ('rt_assert', 'rt_cover', 'rt_assume', 'rt_nondet_u64', 'rt_nondet_u32', 'rt_nondet_bool',
-                 'rt_nondet_u8'):
+                 'rt_nondet_u8', 'rt_stamp', 'rt_self', 'rt_gset', 'rt_gget', 'rt_bset', 'rt_bget'):
             s.emit_rt_builtin(n, ins, res)
             return
         if n in em.atomic:
@@ -722,8 +846,12 @@ class Inst:
             body.append('%s;' % callx)
         if s.resumable and (pname in em.blocking or n in em.blocking):
             s.block_check()
+        elif (pname in em.blocking or n in em.blocking):
+            body.append('RT_BLOCK_PLAIN();')
         if s.resumable and (pname in em.hint_prims or n in em.hint_prims):
-            body.append('rt_budget = 0; /* spin hint */')
+            s.spin_yield()
+        elif (pname in em.hint_prims or n in em.hint_prims):
+            body.append('RT_SPIN_PLAIN();')
 
     def cstring(s, v):
         v = strip_casts(v)
@@ -752,6 +880,18 @@ class Inst:
             body.append('%s(%s)nondet_uint();' % (res, T.ct(ins.ty)))
         elif n == 'rt_nondet_bool':
             body.append('%s(%s)nondet_bool();' % (res, T.ct(ins.ty)))
+        elif n == 'rt_stamp':
+            body.append('%s(%s)(++rt_clock);' % (res, T.ct(ins.ty)))
+        elif n == 'rt_gset':
+            body.append('rt_ghost[%s] = (uint64_t)%s;' % (s.v(a[0]), s.v(a[1])))
+        elif n == 'rt_gget':
+            body.append('%s(%s)rt_ghost[%s];' % (res, T.ct(ins.ty), s.v(a[0])))
+        elif n == 'rt_bset':
+            body.append('rt_gbank[%s][%s] = (uint32_t)%s;' % (s.v(a[0]), s.v(a[1]), s.v(a[2])))
+        elif n == 'rt_bget':
+            body.append('%s(%s)rt_gbank[%s][%s];' % (res, T.ct(ins.ty), s.v(a[0]), s.v(a[1])))
+        elif n == 'rt_self':
+            body.append('%s(%s)%d;' % (res, T.ct(ins.ty), s.slot))
 
     def block_check(s):
         if s.resumable:
@@ -773,7 +913,7 @@ class Inst:
         s.yield_point('prim %s' % n)
         if s.resumable and em.tso:
             body.append('rt_sb_drain(%d);' % s.slot)
-        r = s.reg(ins.res) if ins.res is not None else None
+        r = s.raw(ins.res) if ins.res is not None else None
         if n == 'free':
             body.append('RT_FREE((void *)%s);' % s.v(args[0]))
             return
@@ -805,7 +945,7 @@ class Inst:
                 or n.startswith('llvm.experimental.noalias'):
             return
         if n.startswith('llvm.expect'):
-            body.append('%s = %s;' % (s.reg(ins.res), s.v(a[0])))
+            body.append(s.assign(ins.res, s.v(a[0])))
             return
         if n.startswith('llvm.memset') or n.startswith('llvm.memcpy') or n.startswith('llvm.memmove'):
             dst = a[0]
@@ -816,7 +956,7 @@ class Inst:
                     body.append('rt_sb_drain(%d);' % s.slot)
             ln = a[2]
             dpt = s.info.origin_pointee(dst)
-            if isinstance(ln, CInt) and dpt is not None and not isinstance(s.mod.resolve(dpt), (IntT, VoidT, OpaqueT)) \
+            if isinstance(ln, CInt) and dpt is not None and not isinstance(s.mod.resolve(dpt), (IntT, VoidT, OpaqueT, ArrayT)) \
                     and s.mod.sizeof(dpt) == ln.v:
                 T.need_complete(dpt)
                 ct = T.ct(dpt)
@@ -835,26 +975,26 @@ class Inst:
                 body.append('RT_MEMCPY((void *)%s, (void *)%s, %s);' % (s.v(dst), s.v(a[1]), s.v(ln)))
             return
         if n.startswith('llvm.ctpop'):
-            body.append('%s = (%s)__builtin_popcountll((uint64_t)%s);' % (s.reg(ins.res), T.ct(ins.ty), s.v(a[0])))
+            body.append(s.assign(ins.res, '(%s)__builtin_popcountll((uint64_t)%s)' % (T.ct(ins.ty), s.v(a[0]))))
             return
         if n.startswith('llvm.umax') or n.startswith('llvm.umin'):
             o = '>' if 'umax' in n else '<'
-            body.append('%s = (%s %s %s) ? %s : %s;' % (s.reg(ins.res), s.v(a[0]), o, s.v(a[1]), s.v(a[0]), s.v(a[1])))
+            body.append(s.assign(ins.res, '(%s %s %s) ? %s : %s' % (s.v(a[0]), o, s.v(a[1]), s.v(a[0]), s.v(a[1]))))
             return
         if n.startswith('llvm.smax') or n.startswith('llvm.smin'):
             o = '>' if 'smax' in n else '<'
-            body.append('%s = (%s %s %s) ? %s : %s;' % (s.reg(ins.res), em.signed(ins.ty, s.v(a[0])), o,
-                                                       em.signed(ins.ty, s.v(a[1])), s.v(a[0]), s.v(a[1])))
+            body.append(s.assign(ins.res, '(%s %s %s) ? %s : %s' % (em.signed(ins.ty, s.v(a[0])), o,
+                                                                     em.signed(ins.ty, s.v(a[1])), s.v(a[0]), s.v(a[1]))))
             return
         if n.startswith('llvm.ctlz') or n.startswith('llvm.cttz'):
             bits = ins.ty.bits
             fn = '__builtin_clzll' if 'ctlz' in n else '__builtin_ctzll'
             adj = (' - %d' % (64 - bits)) if 'ctlz' in n and bits < 64 else ''
-            body.append('%s = (%s == 0) ? %d : (%s)(%s((uint64_t)%s)%s);' % (
-                s.reg(ins.res), s.v(a[0]), bits, T.ct(ins.ty), fn, s.v(a[0]), adj))
+            body.append(s.assign(ins.res, '(%s == 0) ? %d : (%s)(%s((uint64_t)%s)%s)' % (
+                s.v(a[0]), bits, T.ct(ins.ty), fn, s.v(a[0]), adj)))
             return
         if n.startswith('llvm.bswap'):
-            body.append('%s = __builtin_bswap%d(%s);' % (s.reg(ins.res), ins.ty.bits, s.v(a[0])))
+            body.append(s.assign(ins.res, '__builtin_bswap%d(%s)' % (ins.ty.bits, s.v(a[0]))))
             return
         if n.startswith('llvm.trap'):
             body.append('RT_ABORT("trap");')
@@ -876,10 +1016,13 @@ class Inst:
             ct = T.ct(val.ty)
             old = s.reg(ins.res)
             cur = '(%s)%s' % (ct, lv)
+            oldset = s.assign(ins.res, cur)
             rop = ins.x['rop']
             ve = s.v(val)
+            if st is not None:
+                oldset = s.assign_p(ins.res, lv)
             if rop == 'xchg':
-                new = ve
+                new = s.pv(val) if st is not None else ve
             elif rop in ('add', 'sub', 'and', 'or', 'xor'):
                 new = em.binop(rop, val.ty, old, ve)
             elif rop == 'nand':
@@ -888,13 +1031,17 @@ class Inst:
                 new = '((%s %s %s) ? %s : %s)' % (old, '>' if rop == 'umax' else '<', ve, old, ve)
             else:
                 raise Unsupported('atomicrmw %s' % rop)
-            body.append('%s = %s; %s = %s%s;' % (old, cur, lv, ('(%s)' % T.ct(st)) if st is not None else '', new))
+            body.append('%s %s = %s%s;' % (oldset, lv, ('(%s)' % T.ct(st)) if st is not None else '', new))
         else:
             cmpv, newv = ins.args[1], ins.args[2]
             lv, st = s.lvalue(p, cmpv.ty)
             ct = T.ct(cmpv.ty)
-            r = s.reg(ins.res)
+            r = s.raw(ins.res)
             T.need_complete(ins.ty)
             cast = ('(%s)' % T.ct(st)) if st is not None else ''
-            body.append('%s.f0 = (%s)%s; %s.f1 = (%s.f0 == %s); if (%s.f1) %s = %s%s;' % (
-                r, ct, lv, r, r, s.v(cmpv), r, lv, cast, s.v(newv)))
+            pre = ''
+            if st is not None:
+                s.extra.append('%svoid *%s_p0;' % ('static ' if s.resumable else '', r))
+                pre = '%s_p0 = (void *)%s; ' % (r, lv)
+            body.append('%s%s.f0 = (%s)%s; %s.f1 = (%s.f0 == %s); if (%s.f1) %s = %s%s;' % (
+                pre, r, ct, lv, r, r, s.v(cmpv), r, lv, cast, s.pv(newv) if st is not None else s.v(newv)))
